@@ -23,6 +23,16 @@ CHECKS = {
              'copy() is checked for equal contents/order, independence and an untouched source. Bounded model checking.',
         note='Trusted: CrossHair path exhaustion, z3, the reference cache. Outside: max_size > 3 (quick) / 4 (thorough), longer histories.',
         ref='C02'),
+    'C09': dict(
+        technique='bounded symbolic execution (CrossHair/z3): chunk_ranges on symbolic integers (offset unbounded); sequence helpers with '
+                  'solver-decided lengths, element-class patterns, sizes, counts, maxsplit and key-equality patterns; oracles str.split/str.strip, slicing',
+        text='chunk_ranges: for input_size 0..8, chunk_size 1..4, every overlap < chunk_size, both align modes and an unbounded symbolic '
+             'input_offset the yielded ranges satisfy start/end/length/overlap/alignment/coverage laws on every path. chunked, windowed, pairwise, '
+             'split (sep None/scalar/collection/callable x maxsplit None,0..3), lstrip/rstrip/strip, unique, redundant, bucketize, partition: every '
+             'length 0..5, every separator/other/None pattern, list/tuple/one-shot-iterator/str/bytes inputs, *_iter forms equal list forms. '
+             'Path trees exhausted; bounded model checking.',
+        note='Trusted: CrossHair/z3, str.split/str.strip and list slicing as reference. Outside: longer sequences, more chunks, exotic __eq__.',
+        ref='C09'),
     'C10': dict(
         technique='bounded symbolic execution (CrossHair/z3) of the real HeapPriorityQueue/SortedPriorityQueue/BarrelList code: '
                   'the order pattern of symbolic priorities, sub-list layout and operations are solver variables; differential + sorted-list model',
